@@ -205,10 +205,10 @@ def _fallback_slots(f, call, cfg):
     return out
 
 
-def _r4(ctx):
-    ctx.rule("R4", "every primary look-up is followed by both suffix fall-backs with identical slots")
+def _r4(ctx, rule="R4", funcs=("ArchSemantics.assign_tp_lt", "ISASemantics.assign_src_dst", "ISASemantics.get_reg_changes"), floor=5):
+    ctx.rule(rule, "every primary look-up is followed by both suffix fall-backs with identical slots")
     sites = 0
-    for q in ("ArchSemantics.assign_tp_lt", "ISASemantics.assign_src_dst", "ISASemantics.get_reg_changes"):
+    for q in funcs:
         f = ctx.func(q)
         cfg = C.cfg_of(f)
         for c in C.calls_to(f.node, "get_instruction"):
@@ -220,30 +220,30 @@ def _r4(ctx):
             sites += 1
             slots = _fallback_slots(f, c, cfg)
             if slots is None:
-                ctx.node_bad("R4", f, c, "the result of a primary look-up is not assigned to a local")
+                ctx.node_bad(rule, f, c, "the result of a primary look-up is not assigned to a local")
                 continue
             for isa, what in (("x86", "AT&T size suffix (mnemonic[-1] in GAS_SUFFIXES -> mnemonic[:-1])"),
                               ("aarch64", "'.cond'/'.shape' suffix ('.' in mnemonic -> mnemonic[:index('.')])")):
                 s = slots[isa]
                 inst = "%s look-up of %s: %s fall-back" % (q.split(".")[1], U(c.args[1]), isa)
                 if s is None:
-                    ctx.bad("R4", inst, f.where(c), "the primary look-up `%s` is not followed on its miss path by "
+                    ctx.bad(rule, inst, f.where(c), "the primary look-up `%s` is not followed on its miss path by "
                             "the %s fall-back" % (U(c)[:90], what), f.qname, "%s fallback after %s" % (isa, U(c)[:80]))
                 elif not (s["suffix_test"] and s["slice"] and s["operands"]) or s["extra"]:
-                    ctx.bad("R4", inst, f.where(s["node"]), "the %s fall-back after `%s` deviates from its siblings "
+                    ctx.bad(rule, inst, f.where(s["node"]), "the %s fall-back after `%s` deviates from its siblings "
                             "(suffix test ok=%s, retry slice ok=%s, operands unchanged=%s, extra conditions=%s)" % (
                                 isa, U(c)[:60], s["suffix_test"], s["slice"], s["operands"], s["extra"]), f.qname,
                             "%s fallback after %s" % (isa, U(c)[:80]))
                 else:
-                    ctx.ok("R4", inst, f.where(s["node"]))
-    ctx.floor("R4", "primary look-ups", sites, 5)
+                    ctx.ok(rule, inst, f.where(s["node"]))
+    ctx.floor(rule, "primary look-ups", sites, floor)
     for cls in ("ArchSemantics", "ISASemantics"):
         v = ctx.repo.cls(cls).class_attrs.get("GAS_SUFFIXES")
-        ctx.check(v is not None and C.literal(v) == "bswlqt", "R4", "%s.GAS_SUFFIXES = 'bswlqt'" % cls, ctx.repo.cls(cls).where(),
+        ctx.check(v is not None and C.literal(v) == "bswlqt", rule, "%s.GAS_SUFFIXES = 'bswlqt'" % cls, ctx.repo.cls(cls).where(),
                   "GAS_SUFFIXES of %s is %s" % (cls, U(v) if v is not None else None), cls, "GAS_SUFFIXES")
     # a miss is None: InstructionForm defines neither __bool__ nor __len__ (so `not x` == `x is None`)
     iform = ctx.repo.cls("InstructionForm")
-    ctx.check("__bool__" not in iform.methods and "__len__" not in iform.methods, "R4",
+    ctx.check("__bool__" not in iform.methods and "__len__" not in iform.methods, rule,
               "`not entry` and `entry is None` are the same miss test", iform.where(),
               "InstructionForm defines __bool__/__len__: `not entry` is no longer equivalent to `entry is None`",
               "InstructionForm", "truthiness of entries")
